@@ -303,13 +303,90 @@ def scn_faults(ctx):
     _compare("c10.after_fault", res, det_alt, kind, tier, idx)
 
 
-FAMILIES = {"faultfree": scn_faultfree, "faults": scn_faults}
+REAL = (("threads", 2), ("threads", 8), ("processes", 3), ("synchronous", 1), ("threads", 1), ("processes", 2))
+
+
+def scn_real(ctx):
+    """Observation, not simulation: the same oracle under dask's REAL schedulers.  Exists because
+    separate module globals per worker process cannot be modelled inside one interpreter.  A
+    mismatch is re-run 5 times and reported with its reproduction rate."""
+    import sys
+
+    import dask
+    from nuspacesim.simulation.eas_optical.cphotang import CphotAng
+
+    ch, tier = ctx.ch, ctx.tier
+    name, nw = REAL[ctx.idx % len(REAL)]  # round-robin over run indices (the index is in the replay file)
+    det_alt = DET_ALTS[ch.draw(3, "det_alt")]
+    kind = CLOUD_KINDS[ch.draw(len(CLOUD_KINDS), "cloud")]
+    pool = _pool(tier)
+    n = (12, 101, 230, 3, 37)[ch.draw(5, "N")]
+    start = ch.draw(len(pool), "event_start")
+    idx = [(start + k) % len(pool) for k in range(n)]
+    poison = ch.draw(4, "poison") == 3
+    ppos = ch.draw(n, "poison_pos") if poison else None
+    args = _arrays(tier, idx, ppos, "alt66" if poison else None)
+    ctx.log(f"real scheduler={name} workers={nw} N={n} det_alt={det_alt:g} cloud={kind} poison@{ppos}")
+    ctx.describe.update(real_scheduler=name, workers=nw, N=n, cloud=kind, det_alt=det_alt, poison_pos=ppos)
+    ctx.probes[f"real_{name}"] += 1
+
+    def once():
+        out = sys.stdout
+        sys.stdout = _NullOut()
+        try:
+            with dask.config.set(scheduler=name, num_workers=nw, **{"multiprocessing.initializer": env.child_init}):
+                try:
+                    return CphotAng(det_alt)(*args, _cloud(kind)), None
+                except BaseException as e:  # noqa: BLE001
+                    return None, e
+        finally:
+            sys.stdout = out
+
+    def verdict():
+        res, exc = once()
+        if poison:
+            if exc is None:
+                return Violation("c10.fault_not_surfaced", f"[real {name} x{nw}] an event at position {ppos} of {n} fails (IndexError) but the batch call returned a value", sig="CphotAng.__call__")
+            return None
+        if exc is not None:
+            return Violation("c10.raised_without_fault", f"[real {name} x{nw}] batch of {n} raised {type(exc).__name__}: {str(exc)[:200]}", sig="CphotAng.__call__")
+        try:
+            _compare("c10.real", res, det_alt, kind, tier, idx)
+        except Violation as v:
+            v.message = f"[real {name} x{nw}] " + v.message
+            return v
+        return None
+
+    v = verdict()
+    if poison:
+        ctx.faults["poison-alt66"] += 1
+    ctx.nontrivial = n > 100 or nw > 1
+    if v is not None:
+        again = sum(1 for _ in range(5) if verdict() is not None)
+        v.message += f" (observational stage; reproduced in {again} of 5 immediate re-runs)"
+        raise Violation(v.check, v.message, v.sig)
+    ctx.log("real verdict=ok")
+
+
+class _NullOut:
+    def write(self, s):
+        return len(s)
+
+    def flush(self):
+        pass
+
+    def isatty(self):
+        return False
+
+
+FAMILIES = {"faultfree": scn_faultfree, "faults": scn_faults, "real": scn_real}
+OBSERVATIONAL = ("real",)
 
 PLAN = {
-    "quick": [("faultfree", 900, 6), ("faults", 500, 6)],
-    "thorough": [("faultfree", 60000, 20), ("faults", 30000, 20)],
+    "quick": [("faultfree", 900, 6), ("faults", 500, 6), ("real", 16, 1)],
+    "thorough": [("faultfree", 40000, 20), ("faults", 20000, 20), ("real", 300, 2)],
 }
-BUDGET = {"quick": 150, "thorough": 1500}
+BUDGET = {"quick": 300, "thorough": 2700}
 
 META = {
     "rule": (
